@@ -364,6 +364,7 @@ func c10(c *Ctx) {
 	c.Rule("R5", "E3 dominance + E8", "mutators change the span only while recording (addChild included); snapshot copies every field under the lock (= C04.R1, C04.R6)", 10)
 	ruleRecordingGuard(c, ix, "R5")
 	ruleSnapshotComplete(c, ix, "R5")
+	ruleLinkAttrsOwned(c, ix, "R5")
 
 	// child counts are exact: whether a child is counted does not depend on what the sampler answered for it
 	{
@@ -735,4 +736,96 @@ func ruleEndAtomic(c *Ctx, ix *PkgIndex, le *LockEngine, rule string) {
 		c.Check(ok, rule, key, at(ix.M, end.Pos()), "test and store are in one critical section", "endTime is stored without s.mu")
 	}
 
+}
+
+// ruleLinkAttrsOwned: "the exported snapshot never changes afterwards" / "the exported span holds exactly what the operations put
+// there". AddLink keeps a Link value built from its argument; the attribute slice in it must be the span's own copy — the
+// argument's slice still belongs to the caller, who may overwrite its elements at any time (also after End), and snapshot()
+// shares the queue's elements with the exported span. Event attributes are copied by trace.NewEventConfig; links have no
+// such step. Shared by C10.R5 and C04.R6.
+func ruleLinkAttrsOwned(c *Ctx, ix *PkgIndex, rule string) {
+	info := ix.Pkg.TypesInfo
+	fn := c.Fn(ix, rule, "(*recordingSpan).AddLink")
+	if fn == nil {
+		return
+	}
+	params := map[types.Object]bool{}
+	for _, p := range fn.ParamObjs(info) {
+		params[p] = true
+	}
+	g := ix.FG(fn)
+	rootedAtParam := func(e ast.Expr) bool {
+		e = unparen(e)
+		for {
+			switch x := e.(type) {
+			case *ast.SelectorExpr:
+				e = unparen(x.X)
+				continue
+			case *ast.SliceExpr:
+				e = unparen(x.X)
+				continue
+			case *ast.Ident:
+				if params[info.Uses[x]] {
+					return true
+				}
+				if d := g.LocalDef(info.Uses[x]); d != nil {
+					e = unparen(d)
+					continue
+				}
+			}
+			return false
+		}
+	}
+	n, bad := 0, ""
+	var badPos token.Pos
+	inspectNoLit(fn.Body(), func(nd ast.Node) bool {
+		cl, ok := nd.(*ast.CompositeLit)
+		if !ok {
+			return true
+		}
+		if nn := namedOf(info.TypeOf(cl)); nn == nil || nn.Obj().Name() != "Link" || nn.Obj().Pkg() != ix.Pkg.Types {
+			return true
+		}
+		for _, el := range cl.Elts {
+			kv, isKV := el.(*ast.KeyValueExpr)
+			if !isKV {
+				continue
+			}
+			if id, isID := kv.Key.(*ast.Ident); !isID || id.Name != "Attributes" {
+				continue
+			}
+			n++
+			if rootedAtParam(kv.Value) {
+				bad, badPos = "Link.Attributes is "+exprStr(kv.Value)+", the caller's slice", kv.Pos()
+			}
+		}
+		return true
+	})
+	// assignments l.Attributes = <param-rooted>
+	inspectNoLit(fn.Body(), func(nd ast.Node) bool {
+		as, ok := nd.(*ast.AssignStmt)
+		if !ok || len(as.Lhs) != len(as.Rhs) {
+			return true
+		}
+		for i, l := range as.Lhs {
+			if fv, b := fieldOf(info, l); fv != nil && fv.Name() == "Attributes" && b != nil {
+				if nn := namedOf(info.TypeOf(b)); nn != nil && nn.Obj().Name() == "Link" && nn.Obj().Pkg() == ix.Pkg.Types {
+					n++
+					if rootedAtParam(as.Rhs[i]) {
+						bad, badPos = "Link.Attributes is assigned "+exprStr(as.Rhs[i])+", the caller's slice", as.Pos()
+					}
+				}
+			}
+		}
+		return true
+	})
+	if n == 0 {
+		return
+	}
+	pos := fn.Pos()
+	if bad != "" {
+		pos = badPos
+	}
+	c.Check(bad == "", rule, "sdk/trace|(*recordingSpan).AddLink|the recorded link owns its attribute slice", at(ix.M, pos), itoa(n)+" store(s), none of the argument's own slice",
+		"the recorded link shares the backing array of the slice the caller passed: overwriting an element of that slice afterwards — even after End — changes the exported snapshot: "+bad)
 }
